@@ -62,10 +62,18 @@ def outcome(p: PPath) -> str:
     return "return value"
 
 
+_LINPROG_POSITIONS = {"c": 0, "A_ub": 1, "b_ub": 2, "A_eq": 3, "b_eq": 4, "bounds": 5}
+
+
 def kw_of(call_event: dict, name: str):
+    """Argument `name` of a call event, by keyword or (for scipy's linprog) by position."""
     for k, v in call_event["kws"]:
         if k == name:
             return v
+    if str(call_event.get("callee", "")).endswith("linprog") and name in _LINPROG_POSITIONS:
+        i = _LINPROG_POSITIONS[name]
+        if i < len(call_event.get("args", ())):
+            return call_event["args"][i]
     return None
 
 
@@ -81,6 +89,15 @@ def rule_lp_bounds(ctx: Ctx, rule: str = "lp-free-bounds") -> None:
             if isinstance(node, ast.Call) and norm(node.func).endswith("linprog"):
                 n += 1
                 b = [k.value for k in node.keywords if k.arg == "bounds"]
+                if not b and len(node.args) > _LINPROG_POSITIONS["bounds"]:
+                    b = [node.args[_LINPROG_POSITIONS["bounds"]]]
+                # a name bound once to the literal (a local or a module constant) stands for it
+                if b and isinstance(b[0], ast.Name):
+                    ds = Flow(fi.node).defs.get(b[0].id, []) if not isinstance(fi.node, ast.Lambda) else []
+                    if not ds and b[0].id in fi.module.assigns:
+                        ds = [fi.module.assigns[b[0].id]]
+                    if len(ds) == 1:
+                        b = [ds[0]]
                 construct = "linprog call in %s has free variable bounds" % fi.key
                 if b and norm(b[0]).replace(" ", "") in ("(None,None)", "[(None,None)]"):
                     ctx.ok(rule, fi.key, construct)
